@@ -436,6 +436,11 @@ func (lli *llIterator) Current() (key, val []byte, err error) {
 		return nil, nil, moss.ErrIteratorDone
 	}
 
+	// the lower level iterator may reuse its buffers on Next() (goleveldb
+	// does), but moss keeps the previous key across Next()
+	key = append([]byte(nil), key...)
+	val = append([]byte(nil), val...)
+
 	return key, val, nil
 }
 
